@@ -25,15 +25,44 @@ let () =
   register "c07_compile" (fun a ->
     let fs = files_of (Sexp.parse (String.concat " " a)) in
     let v = (match compile_check fs with Accept -> "accept" | Reject r -> "reject:" ^ rej_s r) in
-    let (shp, tot) = (match add_files [] fs with
-                      | AddOk ts -> let reg = Model.registry_of ts fs in (registry_shaped reg, calls_total reg)
-                      | AddRej _ -> (false, false)) in
-    [v; bool_s (wf_bundle fs); bool_s (files_shaped fs); bool_s shp; bool_s tot]);
+    let vs = function Accept -> "accept" | Reject r -> "reject:" ^ rej_s r in
+    let (shp, tot, c13, srt) = (match add_files [] fs with
+                      | AddOk ts -> let reg = Model.registry_of ts fs in
+                                    (registry_shaped reg, calls_total reg, vs (compile_check_c13 (fun ks -> ks) fs), bool_s (registry_maps_sorted reg))
+                      | AddRej _ -> (false, false, vs (compile_check_c13 (fun ks -> ks) fs), "#1")) in
+    (* c13: the verdict of the second model of Registry.Add + CheckDataRefs (Model/Compile.v) on the same files; srt: the
+       hypothesis of the theorem that ties the two models (map literals listed by increasing key) *)
+    [v; bool_s (wf_bundle fs); bool_s (files_shaped fs); bool_s shp; bool_s tot; c13; srt]);
   (* c07_registry <key> : the same judgments on a registry loaded with load_registry (the compiled one) *)
   register "c07_registry" (fun a ->
     match a with
     | [key] ->
         let reg = Hashtbl.find Ops_interp.registries key in
-        [(match check_registry reg with Accept -> "accept" | Reject r -> "reject:" ^ rej_s r);
-         bool_s (wf_registry reg); bool_s (registry_shaped reg); bool_s (calls_total reg)]
-    | _ -> failwith "c07_registry")
+        let v = function Accept -> "accept" | Reject r -> "reject:" ^ rej_s r in
+        [v (check_registry reg);
+         bool_s (wf_registry reg); bool_s (registry_shaped reg); bool_s (calls_total reg);
+         (* the second model of CheckDataRefs (Model/Compile.v, C13) and the hypothesis of the tie theorem *)
+         v (check_registry_c13 reg); bool_s (registry_maps_sorted reg)]
+    | _ -> failwith "c07_registry");
+  (* render_x <key> <xTemplate> <fuel> <ij sexp | none> ; <data sexp> -> outcome class, refined unbound counter
+     (misses of declared params of the executing template are not counted), writes *)
+  register "render_x" (fun a ->
+    match a with
+    | key :: tname :: fuel :: rest ->
+        let reg = Hashtbl.find Ops_interp.registries key in
+        let s = String.concat " " rest in
+        let (ijs, ds) = (match String.index_opt s ';' with
+                         | Some i -> (String.trim (String.sub s 0 i), String.trim (String.sub s (i + 1) (String.length s - i - 1)))
+                         | None -> failwith "render_x: missing ;") in
+        let ij = if ijs = "none" then None else Some (value_of (Sexp.parse ijs)) in
+        let (did, dm) = (match value_of (Sexp.parse ds) with
+                         | VMap (id, m) -> (id, m)
+                         | VNull -> (N0, [])
+                         | _ -> failwith "render_x: data must be a map") in
+        let cf = { c_reg = reg; c_ij = ij; c_oblig = []; c_msgs = None } in
+        let r = render_x cf (nat_of_int (int_field fuel)) (xs tname) did dm None None (n_of_int 1000000) in
+        let cls = (match r.rr_outcome with
+                   | Ok _ -> "ok" | Err _ -> "err" | Crash _ -> "crash"
+                   | Diverge -> "diverge" | OutOfFuel -> "fuel" | OutOfModel -> "outofmodel") in
+        [cls; "#" ^ string_of_int (int_of_nat r.rr_unbound)] @ List.map hex_of_bstr r.rr_writes
+    | _ -> failwith "render_x")
